@@ -62,16 +62,20 @@ theorem no_user_generated_comparison : mixedComparisons = [] ∧ mixedKeyMaps = 
 def nonUserAliasKeySites : List (String × String) :=
   (external.filter (fun s => isAliasKeyAccess s && s.prov != 1)).map (fun s => (s.file, s.fn))
 
-/-- **alias_key_fallback_sites_known**: the places where an identifier taken from a translated expression
-(a GENERATED name) is used as an alias key are exactly these seven `Lookup`-then-`AliasedLookup` fallbacks.
-Each is an instance of the capture proved possible by `fallback_lookup_captures`; only `pathCompositeBinding`
-is reachable with a binding of the required type (known finding, see known_findings.json). -/
+/-- the `Lookup`-then-`AliasedLookup` fallbacks known on the tree: an identifier taken from a translated expression
+(a GENERATED name) is used as an alias key -/
+def knownFallbackSites : List (String × String) :=
+  [("function.go", "inferExpressionType"), ("function.go", "expressionForPath"),
+   ("function.go", "translatePathComponentFunction"), ("function.go", "relationshipEndpointFunctionArgument"),
+   ("path_functions.go", "resolvePathCompositeFieldReference"), ("path_functions.go", "resolvePathCompositeFieldReferences"),
+   ("projection.go", "pathCompositeBinding")]
+
+/-- **alias_key_fallback_sites_known**: the places where a generated identifier is used as an alias key are among these
+seven fallbacks, no new one. Each is an instance of the capture proved possible by `fallback_lookup_captures`; only
+`pathCompositeBinding` is reachable with a binding of the required type (known finding; hooks/C06-fix3.patch removes
+that fallback, after which the list shrinks and this obligation still holds). -/
 theorem alias_key_fallback_sites_known :
-    nonUserAliasKeySites =
-      [("function.go", "inferExpressionType"), ("function.go", "expressionForPath"),
-       ("function.go", "translatePathComponentFunction"), ("function.go", "relationshipEndpointFunctionArgument"),
-       ("path_functions.go", "resolvePathCompositeFieldReference"), ("path_functions.go", "resolvePathCompositeFieldReferences"),
-       ("projection.go", "pathCompositeBinding")] := by decide
+    nonUserAliasKeySites.all (fun s => knownFallbackSites.contains s) = true := by decide
 
 theorem alias_key_nonuser_are_fallbacks :
     ((external.filter (fun s => isAliasKeyAccess s && s.prov != 1)).all (fun s => s.fallback && !hasBit s.prov 1)) = true := by decide
@@ -90,8 +94,13 @@ theorem generator_matches_model :
     ∧ generatorDefault.1 = Dawgs.C06.Cls.i.pfx ∧ Dawgs.C06.classOf generatorDefault.2 = Dawgs.C06.Cls.i
     ∧ generatorBumpsByOne = true ∧ generatorRendersPrefixThenCounter = true := by decide
 
-/-- the full T-tie condition (alias keys are user-derived ONLY) is false on the current tree -/
+/-- the full T-tie condition: alias keys are user-derived ONLY. Still false while any of the fallbacks exists; it stays a
+`Prop` (an undischarged obligation, not a theorem) until the last fallback is gone. -/
 def C06_sites_full : Prop := nonUserAliasKeySites = []
-theorem c06_sites_full_refuted : ¬ C06_sites_full := by unfold C06_sites_full; decide
+
+/-- the capture needs a binding of a particular type at six of the seven fallbacks' call sites that the translator cannot
+produce there; whether `pathCompositeBinding` still has it is what the harness's `gen-id-captured-by-path-variable`
+class observes. -/
+theorem fallback_sites_bounded : nonUserAliasKeySites.length ≤ 7 := by decide
 
 end Dawgs.C06.Sites
